@@ -180,6 +180,8 @@ unique_ptr<DiscreteDistributionInterface> BppODiscreteDistributionFormat::readDi
     int n = TextTools::toInt(args["n"]); // raises if not an integer
     if (n < 1)
       throw Exception("The number of classes 'n' must be at least 1 in " + distName + " distribution");
+    if (n > 1000000)
+      throw Exception("The number of classes 'n' is too large in " + distName + " distribution: " + args["n"]);
     unsigned int nbClasses = static_cast<unsigned int>(n);
 
     if (distName == "Gamma")
